@@ -432,17 +432,27 @@ class LemIdx(Lemma):
     measure = "k"
 
 
+class LemLastKey(Lemma):
+    name = "a name is in the index iff some member has it"
+    function = "spec:dict_spec"
+    params = LP
+    requires = ("k >= 0",)
+    claim = "(name in dict_spec(d, k, fname, enc, errs)) == (last_idx(d, k, name, enc, errs) >= 0)"
+    induction = ({"k": "k - 1"},)
+    measure = "k"
+
+
 class LemLast(Lemma):
     name = "lookup by name returns the last member of that name"
     function = "spec:dict_spec"
     params = LP
-    requires = ("k >= 0",)
-    claim = ("(name in dict_spec(d, k, fname, enc, errs)) == (last_idx(d, k, name, enc, errs) >= 0) and "
-             "implies(last_idx(d, k, name, enc, errs) >= 0, "
-             "dict_spec(d, k, fname, enc, errs)[name] == members_spec(d, k, fname, enc, errs)[last_idx(d, k, name, enc, errs)])")
+    requires = ("k >= 0", "last_idx(d, k, name, enc, errs) >= 0",
+                "law_nth_append(members_spec(d, k - 1, fname, enc, errs), member_at(d, hdr_pos(d, k - 1), fname, enc, errs), "
+                "last_idx(d, k, name, enc, errs))")
+    claim = ("dict_spec(d, k, fname, enc, errs)[name] == members_spec(d, k, fname, enc, errs)[last_idx(d, k, name, enc, errs)]")
     induction = ({"k": "k - 1"},)
     measure = "k"
-    uses = ((LemLen, {"k": "k - 1"}), (LemIdx, {"k": "k - 1"}), (LemLen, {}))
+    uses = ((LemLen, {"k": "k - 1"}), (LemIdx, {"k": "k - 1"}))
 
 
 class GetNames(Contract):
@@ -779,7 +789,7 @@ def run(ctx):
     # modular calls, verification iterates over all variants
     reps = {c.qualname: replay_member for c in cs if isinstance(c, MemberContract)}
     verify_contracts(ctx, w, cs, reps)
-    verify_lemmas(ctx, w, [LemLen(), LemIdx(), LemLast()])
+    verify_lemmas(ctx, w, [LemLen(), LemIdx(), LemLastKey(), LemLast()])
     ctx.solve()
     ev, nt, samples = bounded_arfile(ctx)
     ctx.bounded("B-06 ArFile(listing, getmember, header fields) + interleaved member operations vs io.BytesIO",
